@@ -189,6 +189,35 @@ def run(ctx):
             ok_ = 'every node' in covered or covered == {'Terminal', 'Chance', 'Player'}
             ctx.verdict(ok_, rule, rule + ':every-node-kind', 'along every path the payoffs of the outcome attached to a terminal, a chance node and a player node are all added before the sums are compared', gg.where(sorted(arms.values())[0][0]),
                         'outcome payoffs accumulated at: %s' % sorted(covered), breaks='a file whose only non-constant-sum payoffs sit on a chance (or player) node is accepted and solved as if it were constant sum')
+        # the outcome table is complete when it is consulted: a lookup does not share a loop with an insert into the same
+        # table, unless the very key looked up has been inserted on every path of the same iteration
+        tabs = [l for l in gg.names if re.search(r'HashMap<.*\[f64; 2\]', gg.locals[l]['ty'])] if hasattr(gg, 'names') else []
+        for tl in tabs:
+            me = ('var', tl, gg.local_name(tl))
+            def on_tab(e_, tl=tl, me=me):
+                if not e_[2]:
+                    return False
+                x_ = strip_refs(e_[2][0])
+                return x_ == me or (x_[0] == 'call' and len(x_) > 3 and x_[3] == q.def_site(gg, tl))
+            ins = [(bi, e_) for bi, t_, e_ in q.calls_named(gg, 'insert') if 'HashMap' in e_[1] and on_tab(e_)]
+            gets = [(bi, e_) for bi, t_, e_ in q.calls_named(gg, 'get') if 'HashMap' in e_[1] and on_tab(e_)]
+            if not ins or not gets:
+                continue
+            early = []
+            for gb, ge in gets:
+                for h_, body in gg.loops:
+                    if gb not in body:
+                        continue
+                    shared = [(ib, ie) for ib, ie in ins if ib in body]
+                    if not shared:
+                        continue
+                    key = facts.show(norm(strip_refs(ge[2][1])))
+                    if not any(gg.dominates(ib, gb) and ib != gb and facts.show(norm(strip_refs(ie[2][1]))) == key and (gg.loop_of(ib) or (None,))[0] == (gg.loop_of(gb) or (None,))[0] for ib, ie in shared):
+                        early.append(gg.where(gb))
+                    break
+            ctx.verdict(not early, rule, rule + ':table-complete-before-lookup', 'outcome payoffs are looked up by outcome number only once every node has been scanned (or right after inserting that very outcome)', gg.where(gets[0][0]),
+                        '%d lookup(s), %d insert(s); lookups inside the filling loop without a dominating insert of the same key: %s' % (len(gets), len(ins), early),
+                        breaks='a node that refers by number to an outcome defined at a node scanned later contributes nothing to the constant-sum test: non-constant-sum files are accepted')
         # the running sum handed to the children (and compared at the leaves) is the *updated* one
         acc_locals = set()
         for bi, st, pl, rhs in q.stores(gg):
@@ -242,7 +271,8 @@ def run(ctx):
                 continue
             bi = cs[0][0]
             two = any(((c['kind'] == 'Ne' and c['truth'] is False) or (c['kind'] == 'Eq' and c['truth'] is True)) and is_const(c['b'], 2) and 'player_names' in facts.show(c['a']) for c in fs.conds(bi))
-            parsed = any(c['kind'] == 'variant' and c['variants'] == ['Continue'] for c in fs.conds(bi))
+            # `?` on the parse, or the same thing spelled as a match (Ok edge of the try_from result)
+            parsed = any(c['kind'] == 'variant' and (c['variants'] == ['Continue'] or (c['variants'] == ['Ok'] and q.find_sub(c['a'], lambda s_: q.is_call(s_, 'try_from')) is not None)) for c in fs.conds(bi))
             ctx.verdict(two and parsed, rule, '%s:two-players-before:%s' % (rule, callee), 'the parse succeeded and the player count is exactly two before %s runs' % callee, fs.where(bi),
                         'parse ok: %s, `player_names().len() == 2` edge: %s' % (parsed, two), breaks='three-player files are converted (player numbers index two-element tables)')
     gi = ctx.fn('bin', 'gambit::get_global_info', rule)
